@@ -120,6 +120,11 @@ class extract_visitor(NodeVisitor):
         body_start = self.make_flow('for', [cur])
         body_loc = get_first_body_node_loc(node.body) or np(node.body[0])
         for nn, _idx in get_indexes_for_target(node.target, [], []):
+            if isinstance(nn, Attribute):
+                self.top.add_attr_assign(self.flow.scope, nn, node.iter)
+                continue
+            elif isinstance(nn, UNSUPPORTED_ASSIGMENTS):
+                continue
             name = nn  # type: ast.Name # type: ignore[assignment]
             body_start.add_name(AssignedName(name.id, body_loc, np(name), node.iter))
         body = self.visit_in_flow(node.body, body_start)
@@ -278,6 +283,11 @@ class extract_visitor(NodeVisitor):
             pp = p
             p = self.make_flow('comp', [p])
             for nn, _idx in get_indexes_for_target(g.target, [], []):
+                if isinstance(nn, Attribute):
+                    self.top.add_attr_assign(self.flow.scope, nn, g.iter)
+                    continue
+                elif isinstance(nn, UNSUPPORTED_ASSIGMENTS):
+                    continue
                 name = nn  # type: ast.Name # type: ignore[assignment]
                 name.flow = pp  # type: ignore[attr-defined]
                 # a comprehension variable is not a local of the enclosing scope
@@ -313,6 +323,11 @@ class extract_visitor(NodeVisitor):
             if it.optional_vars:
                 eend = get_expr_end(it.context_expr)
                 for nn, _idx in get_indexes_for_target(it.optional_vars, [], []):
+                    if isinstance(nn, Attribute):
+                        self.top.add_attr_assign(self.flow.scope, nn, it.context_expr)
+                        continue
+                    elif isinstance(nn, UNSUPPORTED_ASSIGMENTS):
+                        continue
                     name = nn  # type: ast.Name # type: ignore[assignment]
                     self.flow.add_name(AssignedName(name.id, eend, np(name), node))
 
